@@ -123,8 +123,14 @@ type txnView struct {
 	rollbacks  []*simkit.RPCRecord
 	heartbeats []*simkit.RPCRecord
 	primary    []byte
+	primaries  []primaryAt
 	async      bool
 	onePC      bool
+}
+
+type primaryAt struct {
+	seq uint64
+	key []byte
 }
 
 func physical(ts uint64) int64 { return int64(ts >> 18) }
@@ -256,6 +262,7 @@ func (m *monitor) run() {
 		switch req := r.Req.Req.(type) {
 		case *kvrpcpb.PrewriteRequest:
 			v := view(req.StartVersion, r.Client)
+			v.primaries = append(v.primaries, primaryAt{r.SubmitSeq, req.PrimaryLock})
 			v.prewrites = append(v.prewrites, r)
 			if v.primary == nil {
 				v.primary = req.PrimaryLock
@@ -276,6 +283,9 @@ func (m *monitor) run() {
 			if req.CommitVersion <= req.StartVersion {
 				m.fail("R7-commit-ts-gt-start", fmt.Sprintf("txn%d", req.StartVersion), "commit request of txn %d carries commit ts %d <= start ts", req.StartVersion, req.CommitVersion)
 			}
+		case *kvrpcpb.PessimisticLockRequest:
+			v := view(req.StartVersion, r.Client)
+			v.primaries = append(v.primaries, primaryAt{r.SubmitSeq, req.PrimaryLock})
 		case *kvrpcpb.BatchRollbackRequest:
 			v := view(req.StartVersion, r.Client)
 			v.rollbacks = append(v.rollbacks, r)
@@ -475,8 +485,20 @@ func (m *monitor) run() {
 			m.hit("R6-heartbeat")
 			first := !seenAdvise[req.AdviseLockTtl]
 			seenAdvise[req.AdviseLockTtl] = true
-			if v.primary != nil && !bytes.Equal(req.PrimaryLock, v.primary) {
-				m.fail("R6-heartbeat-primary", sig, "txn %d: heart-beat names %q, the primary is %q", ts, req.PrimaryLock, v.primary)
+			// the primary of a pessimistic transaction can change when its first lock call fails: judged
+			// against every primary the transaction had named in a lock or prewrite request before this heart-beat
+			named := false
+			var seen []string
+			for _, pr := range v.primaries {
+				if pr.seq < hb.SubmitSeq {
+					seen = append(seen, string(pr.key))
+					if bytes.Equal(pr.key, req.PrimaryLock) {
+						named = true
+					}
+				}
+			}
+			if len(seen) > 0 && !named {
+				m.fail("R6-heartbeat-primary", sig, "txn %d: heart-beat names %q, the transaction's primaries so far were %q", ts, req.PrimaryLock, seen)
 			}
 			if req.AdviseLockTtl < lastTTL {
 				m.fail("R6-heartbeat-ttl-decreases", sig, "txn %d: advised ttl went from %d to %d", ts, lastTTL, req.AdviseLockTtl)
